@@ -33,6 +33,11 @@ func main() {
 		os.Exit(genPolicy())
 	case "selftest":
 		os.Exit(selftest(true))
+	case "hist-obs":
+		if len(os.Args) < 4 {
+			usage()
+		}
+		os.Exit(histObsSubcommand(os.Args[2], os.Args[3]))
 	case "replay":
 		if len(os.Args) < 3 {
 			usage()
